@@ -104,3 +104,30 @@ Definition st2z (s : status) : Z :=
 
 Definition run_hist (ops : list op) : list (Z * list (list Z)) :=
   map (fun row => (st2z (fst row), map enc_opt (snd row))) (run isort isort empty_state ops).
+
+(* the same, printing only what changed since the previous step (the check rebuilds the full rows):
+   (status, number of live names, [(name index, encoding)]) *)
+Fixpoint zlist_eqb (a b : list Z) : bool :=
+  match a, b with
+  | [], [] => true
+  | x :: a', y :: b' => (x =? y) && zlist_eqb a' b'
+  | _, _ => false
+  end.
+
+Fixpoint diff_rows (prev cur : list (list Z)) (i : Z) : list (Z * list Z) :=
+  match cur with
+  | [] => []
+  | c :: cr =>
+      match prev with
+      | p :: pr => if zlist_eqb p c then diff_rows pr cr (i + 1) else (i, c) :: diff_rows pr cr (i + 1)
+      | [] => (i, c) :: diff_rows [] cr (i + 1)
+      end
+  end.
+
+Fixpoint diffs (prev : list (list Z)) (rows : list (Z * list (list Z))) : list (Z * (Z * list (Z * list Z))) :=
+  match rows with
+  | [] => []
+  | (st, obs) :: r => (st, (Z.of_nat (length obs), diff_rows prev obs 0)) :: diffs obs r
+  end.
+
+Definition run_hist_d (ops : list op) := diffs [] (run_hist ops).
